@@ -35,6 +35,14 @@ oracle tolerance is rounding level, not quadrature level):
   eshelby_textbook   sphere in an isotropic matrix: S_ijkl = (5nu-1)/(15(1-nu)) d_ij d_kl + (4-5nu)/(15(1-nu)) (d_ik d_jl + d_il d_jk)
                      (S1111 = (7-5nu)/(15(1-nu)), S1122, S1212; all 81 components)       abs 1e-9
   rotation_invariance isotropic matrix: energy with an arbitrary matrix rotation = energy without       rel 1e-9
+  axis_permutation   isotropic matrix (precipitate unset/same/isotropic): turning the particle - semi-axes and eigenstrain
+                     together - by 90 degrees relative to the matrix leaves the energy unchanged (this is how 'the energy does
+                     not depend on the orientation of the matrix axes' becomes observable: setRotationMatrix is a no-op for an
+                     isotropic tensor).  rot90-about-z (a<->b) is an exact symmetry of every node set used here (all are
+                     built by adding k*90 deg to phi): |dE| <= 1e-9 U0.  cyclic-xyz is an exact symmetry of a Lebedev rule
+                     and holds to quadrature accuracy for the product rule (aspect ratio <= 6 only): |dE| <= 1e-4 U0
+                     (measured floor on the injected rule see worst 'axis_permutation_cyclic-xyz_gl'; a swapped axis changes
+                     the energy by 1e-2..1e-1 U0)
   setter_order       cubic stiffness: (rotation, stiffness) and (stiffness, rotation) give the same rotated tensor
                      and the same energy; for the matrix and for the precipitate         rel 1e-12
   rotation_formula   rotateRank2Tensor / rotateRank4Tensor equal their documented formulas T'_ij = r_il r_jk T_lk,
@@ -76,7 +84,7 @@ RULE = ('random parameter sets: matrix {isotropic, cubic aligned, cubic rotated}
         'ratio of matrix or precipitate differs from 1 by > 5 % or the aspect ratio is > 1.05; the other kinds are '
         'non-trivial when their monitors were evaluated; distinct by the hash of the drawn configuration')
 REQUIRED_MONITORS = ['nonneg', 'size_scaling', 'strain_scaling', 'rank_agree', 'inverse_agree', 'homog_limit',
-                     'closed_form_sphere', 'eshelby_textbook', 'rotation_invariance', 'setter_order', 'rotation_formula',
+                     'closed_form_sphere', 'eshelby_textbook', 'rotation_invariance', 'axis_permutation', 'setter_order', 'rotation_formula',
                      'quad_weights', 'quad_monomials', 'rank_roundtrip', 'moduli_roundtrip', 'eqar_agree']
 _EF = 'precipitation/parameters/ElasticFactors.py:'
 REACH = [_EF + 'EllipsoidalEnergyDescription.sphInt', _EF + 'EllipsoidalEnergyDescription.Dijkl',
@@ -105,6 +113,9 @@ TOL_QUAD = 1e-11
 GL_NT, GL_NPHI = 48, 96
 GLX_NT, GLX_NPHI = 400, 32
 DQ_RESOLVED = 1e-3
+TOL_PERM = 1e-4
+PERMUTATIONS = {'rot90-about-z': np.array([[0., -1, 0], [1, 0, 0], [0, 0, 1]]),
+                'cyclic-xyz': np.array([[0., 0, 1], [1, 0, 0], [0, 1, 0]])}
 ORDERS = {'repo-low': ('low', 53), 'repo-mid': ('mid', 83), 'repo-high': ('high', 131)}
 QUADS = ['repo-low', 'repo-mid', 'repo-high', 'gl']
 # evaluation order inside a case: the harness keeps at most 3 violations per monitor and case, so the quadrature whose
@@ -651,6 +662,20 @@ def case_energy(case, R):
                 R.check('rotation_invariance', e <= TOL_ALG, qmech(quad, formula=name, precipitate=cfg['pclass'], **base),
                         unrotated=E[name], rotated=Er[name], rel_diff=e, rotation=Rextra, config=cfg)
             iso_sphere_checks(R, sub, quad, cfg['matrix']['G'], cfg['matrix']['nu'], how)
+            # the particle (semi-axes + eigenstrain) turned by 90 degrees relative to the isotropic matrix
+            if cfg['pclass'] in ('unset', 'same', 'iso'):
+                for pname, P in PERMUTATIONS.items():
+                    if pname == 'cyclic-xyz' and cfg['ar'] > 6.0:
+                        continue      # the fine product rule only resolves spheroids whose unique axis is z
+                    cfg2 = dict(cfg, radii=(np.abs(P) @ r).tolist(), eig=(P @ eigT @ P.T).tolist())
+                    se_p = build(cfg2, quad, how=how)
+                    Ep = _energies(se_p, np.array(cfg2['radii']))
+                    tol = TOL_ALG if pname == 'rot90-about-z' else TOL_PERM
+                    for name in ('compute', 'homog4'):
+                        e = abs(Ep[name] - E[name]) / U0
+                        R.worst('axis_permutation_%s_%s' % (pname, 'gl' if quad == 'gl' else 'repo'), e)
+                        R.check('axis_permutation', e <= tol, qmech(quad, permutation=pname, formula=name, **base),
+                                original=E[name], permuted=Ep[name], diff_over_U0=e, config=cfg)
         else:
             if quad in ('gl', QUADS[case['idx'] % 3]):
                 setter_order_checks(R, sub, quad, cfg, how)
